@@ -100,6 +100,11 @@ def run(db, rep, tier):
     r2(db, rep)
     r3(db, rep)
     r4(db, rep)
+    rep.rule("R5-overwrite", "outside constructors an owning pointer member is overwritten only after its old target was deleted or handed over", 3)
+    rep.rule("R6-borrowed-delete", "a layer obtained through the non-owning inner_pdu() getter is never deleted while its parent still owns it "
+                                   "(expected count 0 on the library; positive and negative controls on the fixture)", 0)
+    r5(db, rep)
+    r6(db, rep)
     controls(db, rep)
     rep.explanation = ("Decides the ownership/linking clauses of C12 that are visible in the shape of the special members and of "
                        "the child-link mutators: every pointer-owning class (found from its destructor) is checked member by "
@@ -575,4 +580,151 @@ def controls(db, rep):
               "Fx::OwnerCloneFirst|copy_assign"]:
         if w not in okk:
             rep.analysis_broken("R1 negative control %s was reported on the fixture" % w)
-    rep.extra["fixture_controls"] = len(want) + 5 + 4
+    # R5 / R6 controls
+    r5_ = report.Report(PID, "quick")
+    r5_.rule("R5-overwrite", "", 0)
+    r5_.rule("R6-borrowed-delete", "", 0)
+    r5(fx, r5_, minimum=0)
+    r6(fx, r5_)
+    v = set(o["key"] for o in r5_.obls if o["verdict"] == "violation")
+    k = set(o["key"] for o in r5_.obls if o["verdict"] == "ok")
+    if not any("drop_leaks" in x for x in v) or not any("drop_good" in x for x in k):
+        rep.analysis_broken("R5 controls on the fixture: violations %s, ok %s" % (sorted(v), sorted(k)))
+    if not any("borrowed_bad" in x for x in v) or not any("borrowed_ok" in x for x in k):
+        rep.analysis_broken("R6 controls on the fixture: violations %s, ok %s" % (sorted(v), sorted(k)))
+    rep.extra["fixture_controls"] = len(want) + 5 + 4 + 4
+
+
+def r5(db, rep, minimum=3):
+    """every plain assignment to an owning pointer field in a member function that is not a constructor: on all paths to it
+    the old target was deleted, moved out with swap, or the field is known to be null"""
+    from vlib import cond
+    seen = set()
+    n = 0
+    for rec, field, dtor in owners(db):
+        if (rec, field) in seen:
+            continue
+        seen.add((rec, field))
+        for fid, f in sorted(db.functions.items()):
+            if f.get("rec") != rec or not f.get("body") or f.get("kind") in ("ctor", "dtor"):
+                continue
+            g = None
+            for x in facts.fn_nodes(f):
+                if x["k"] != "BinaryOperator" or x.get("op") != "=":
+                    continue
+                if this_field(x["c"][0]) != field:
+                    continue
+                n += 1
+                g = g or cfg.FnCFG(f)
+                key = "%s::%s:%s#%d" % (rec.split("::")[-1], f["qual"].split("::")[-1], field, n)
+                rel = []
+                for y in facts.fn_nodes(f):
+                    if y["k"] == "CXXDeleteExpr" and this_field(y["c"][0]) == field:
+                        rel.append(g.pos(y))
+                    if y["k"] == "CallExpr" and y.get("cname") == "swap" and any(this_field(a) == field for a in y["c"][1:]):
+                        rel.append(g.pos(y))
+                    if y["k"] == "BinaryOperator" and y.get("op") == "=" and y is not x and saved_from(y["c"][1], field):
+                        rel.append(g.pos(y))        # value saved into a local / result first
+                    if y["k"] == "VarDecl" and y.get("c") and saved_from(y["c"][0], field):
+                        rel.append(g.pos(y))
+                released = bool(rel) and g.reached_from_entry_avoiding(g.pos(x), [p for p in rel if p]) is None
+                known_null = any(op == "==" and r is not None and ((this_field(l) == field and is_null(r)) or (this_field(r) == field and is_null(l)))
+                                 for op, l, r in cond.guards_facts(g, g.pos(x)))
+                if released or known_null:
+                    rep.ok("R5-overwrite", key, facts.loc(f, x), "old target deleted / moved out on every path before the store")
+                else:
+                    rep.violation("R5-overwrite", key, facts.loc(f, x),
+                                  "%s::%s overwrites the owning pointer %s without deleting (or handing over) what it pointed to: the old "
+                                  "layers are leaked" % (rec.split("::")[-1], f["qual"].split("::")[-1], field))
+    if n < minimum:
+        rep.analysis_broken("only %d assignment(s) to owning pointer members outside constructors found" % n)
+
+
+def saved_from(e, field):
+    """e reads the field's pointer value (possibly through std::move / a cast) so that it lives on elsewhere"""
+    if this_field(e) == field:
+        return True
+    for y in facts.walk(e):
+        if y["k"] == "MemberExpr" and y.get("member") == field and y.get("c") and strip(y["c"][0])["k"] == "CXXThisExpr":
+            return True
+    return False
+
+
+def r6(db, rep):
+    """`T* p = x->inner_pdu()` borrows; `delete p` needs x->release_inner_pdu() (or x->inner_pdu(0)-style hand-over) on every path in between"""
+    n = 0
+    for fid, f in sorted(db.functions.items()):
+        if not f.get("body") or not (f["file"].startswith("src/") or f["file"].startswith("include/tins") or db.config == "fixture"):
+            continue
+        borrows = {}
+        for x in facts.fn_nodes(f):
+            if x["k"] == "VarDecl" and x.get("c"):
+                i0 = [y for y in facts.walk(x["c"][0]) if y["k"] == "CXXMemberCallExpr" and y.get("cname") == "inner_pdu" and len(y["c"]) == 1]
+                rel0 = [y for y in facts.walk(x["c"][0]) if y["k"] == "CXXMemberCallExpr" and y.get("cname") == "release_inner_pdu"]
+                if i0 and not rel0 and (facts.tyi(f, x.get("t")) or {}).get("k") == "ptr":
+                    me = i0[0]["c"][0]
+                    while me["k"] in ("ParenExpr", "ImplicitCastExpr"):
+                        me = me["c"][0]
+                    owner = facts.expr_str(me["c"][0]) if me.get("c") else "this"
+                    borrows[x["var"]] = (x, owner)
+        if not borrows:
+            continue
+        g = cfg.FnCFG(f)
+        for x in facts.fn_nodes(f):
+            if x["k"] != "CXXDeleteExpr":
+                continue
+            a = facts.strip_all(x["c"][0])
+            if a["k"] != "DeclRefExpr" or a.get("var") not in borrows:
+                continue
+            decl, owner = borrows[a["var"]]
+            n += 1
+            key = "%s:delete(%s)" % (f["qual"].replace("Tins::", ""), decl.get("name"))
+            rels = [g.pos(y) for y in facts.fn_nodes(f) if y["k"] == "CXXMemberCallExpr" and y.get("cname") == "release_inner_pdu"
+                    and owner in facts.expr_str(y["c"][0])]
+            rels += [g.pos(y) for y in facts.fn_nodes(f) if y["k"] in ("BinaryOperator",) and y.get("op") == "=" and
+                     strip(y["c"][0]).get("var") == a["var"]]
+            w = None
+            if not rels:
+                w = True
+            else:
+                # a path from the borrow to the delete that avoids every release?
+                avoid = [p for p in rels if p]
+                w = path_avoiding(g, g.pos(decl), g.pos(x), avoid)
+            if w:
+                rep.violation("R6-borrowed-delete", key, facts.loc(f, x),
+                              "`%s` was obtained with %s->inner_pdu() (the parent keeps owning it) and is deleted on a path without "
+                              "%s->release_inner_pdu(): the layer is freed twice" % (decl.get("name"), owner, owner))
+            else:
+                rep.ok("R6-borrowed-delete", key, facts.loc(f, x), "released from its parent on every path before the delete")
+    rep.extra["borrowed_deletes"] = n
+    if n == 0:
+        # expected count on the pinned tree is zero: the fixture below is the positive control
+        pass
+
+
+def path_avoiding(g, a, b, avoid):
+    """is there a CFG path from position a to position b touching no position in avoid?"""
+    ab = {}
+    for (blk, i) in avoid:
+        ab.setdefault(blk, []).append(i)
+    sb, si = a
+    tb, ti = b
+    if sb == tb and si < ti:
+        return not any(si < i < ti for i in ab.get(sb, []))
+    if any(i > si for i in ab.get(sb, [])):
+        return False
+    seen = set()
+    stack = list(g.succs(sb))
+    while stack:
+        blk = stack.pop()
+        if blk in seen:
+            continue
+        seen.add(blk)
+        if blk == tb:
+            if not any(i < ti for i in ab.get(blk, [])):
+                return True
+            continue
+        if blk in ab:
+            continue
+        stack.extend(g.succs(blk))
+    return False
